@@ -88,6 +88,9 @@ def steps(node):
         out.append(("enum-reorder", dict(node, symbols=syms[::-1])))
         out.append(("enum-rename-with-alias", dict(node, name="Renamed" + node["name"].split(".")[-1], aliases=[node["name"]])))
         out.append(("enum-rename-no-alias", dict(node, name="Renamed" + node["name"].split(".")[-1])))
+        out.append(("enum-rename-with-alias-and-drop-symbol",
+                    dict(node, name="Renamed" + node["name"].split(".")[-1], aliases=[node["name"]],
+                         symbols=syms[:-1], default=syms[0])))
     elif k == "fixed":
         out.append(("fixed-size-change", dict(node, size=node["size"] + 1)))
         out.append(("fixed-rename-with-alias", dict(node, name="Renamed" + node["name"].split(".")[-1], aliases=[node["name"]])))
@@ -112,6 +115,13 @@ def steps(node):
         out.append(("record-rename-with-alias", dict(node, name="Renamed" + nm, aliases=[node["name"]])))
         out.append(("record-rename-with-unqualified-alias", dict(node, name="Renamed" + nm, aliases=[nm])))
         out.append(("record-rename-no-alias", dict(node, name="Renamed" + nm)))
+        # two cooperating steps on one type: renamed (matched through the alias) AND changed
+        out.append(("record-rename-with-alias-and-add-field",
+                    dict(node, name="Renamed" + nm, aliases=[node["name"]],
+                         fields=fs + [{"name": "added", "type": "int", "default": 42}])))
+        if fs:
+            out.append(("record-rename-with-alias-and-drop-field",
+                        dict(node, name="Renamed" + nm, aliases=[node["name"]], fields=fs[:-1])))
         out.append(("record-other-namespace", dict(node, name="other.ns." + nm)))
     return out
 
